@@ -34,8 +34,43 @@ const NKEYS: usize = 8;
 /// same bytes; only their projective coordinates differ.
 const INF: u8 = 8;
 const NINF: u8 = 4;
+/// key indices OFF + k: the pool key k plus a point T of the cofactor torsion
+/// (on the curve, NOT in the prime-order subgroup G1; only constructible through
+/// `from_bytes_unchecked` / arithmetic). There is no secret key for it, but
+/// because pairings ignore the torsion component, the holder of sk_k can make
+/// the pairing equation hold: share = sign_raw(sk_k, bytes(pk_k + T) ‖ msg).
+/// Every verifier has to refuse such a key all the same.
+const OFF: u8 = INF + NINF;
+/// not a key of the subgroup with a secret key: infinity or off the subgroup
 fn is_inf_idx(k: u8) -> bool {
     k >= INF
+}
+fn is_off_idx(k: u8) -> bool {
+    k >= OFF
+}
+
+/// a non-zero point of the cofactor torsion: r·Q = (r-1)·Q + Q for the first
+/// on-curve point Q outside G1 found by a deterministic search
+fn torsion_point() -> &'static PublicKey {
+    static T: std::sync::OnceLock<PublicKey> = std::sync::OnceLock::new();
+    T.get_or_init(|| {
+        for i in 0..=255u8 {
+            let mut b = [0u8; 48];
+            b[0] = 0x80 | (i & 0x1f);
+            b[20] = 0x5a;
+            b[47] = i;
+            if let Ok(q) = PublicKey::from_bytes_unchecked(&b) {
+                if PublicKey::from_bytes(&b).is_err() {
+                    let mut t = q;
+                    t.scalar_multiply(&R_MINUS_1);
+                    t += &q;
+                    assert!(!t.is_inf() && !t.is_valid(), "torsion point");
+                    return t;
+                }
+            }
+        }
+        panic!("no off-subgroup point found");
+    })
 }
 const NPOOLS: usize = 4;
 
@@ -45,6 +80,10 @@ const M_HELLO: &[u8] = b"hello";
 const M_32: &[u8] = &[0x6a; 32];
 const M_LONG: &[u8] = &[0xff; 100];
 const MSGS: [&[u8]; 5] = [M_EMPTY, M_ZERO, M_HELLO, M_32, M_LONG];
+/// message indices 5 and 6 depend on the pair's key: the key's own 48-byte
+/// encoding, alone and followed by "hello" — messages that START with what the
+/// augmented scheme prepends anyway ((pk, pk‖m) and (pk, m) are different pairs)
+const NMSGS: usize = 7;
 
 type Pair = (u8, u8); // (key index or INF, message index)
 
@@ -72,6 +111,9 @@ impl Pool {
         Self { sks, pks, shares: HashMap::new(), gts: HashMap::new() }
     }
     fn pk(&self, k: u8) -> PublicKey {
+        if is_off_idx(k) {
+            return self.pks[(k - OFF) as usize] + torsion_point();
+        }
         if is_inf_idx(k) {
             match k - INF {
                 0 => PublicKey::default(),
@@ -108,19 +150,35 @@ impl Pool {
             self.pks[k as usize]
         }
     }
+    fn msg(&self, p: Pair) -> Vec<u8> {
+        match p.1 as usize {
+            m @ 0..=4 => MSGS[m].to_vec(),
+            5 => self.pk(p.0).to_bytes().to_vec(),
+            _ => {
+                let mut v = self.pk(p.0).to_bytes().to_vec();
+                v.extend_from_slice(M_HELLO);
+                v
+            }
+        }
+    }
     /// sign(sk_k, msg_m): the share of pair (k, m) in an aggregate
     fn share(&mut self, p: Pair) -> Signature {
-        assert!(!is_inf_idx(p.0));
+        assert!(!is_inf_idx(p.0) || is_off_idx(p.0));
         if let Some(s) = self.shares.get(&p) {
             return s.clone();
         }
-        let s = sign(&self.sks[p.0 as usize], MSGS[p.1 as usize]);
+        let s = if is_off_idx(p.0) {
+            // the share that makes the pairing equation hold for the torsion twin
+            chia_bls::sign_raw(&self.sks[(p.0 - OFF) as usize], self.aug(p))
+        } else {
+            sign(&self.sks[p.0 as usize], self.msg(p))
+        };
         self.shares.insert(p, s.clone());
         s
     }
     fn aug(&self, p: Pair) -> Vec<u8> {
         let mut a = self.pk(p.0).to_bytes().to_vec();
-        a.extend_from_slice(MSGS[p.1 as usize]);
+        a.extend_from_slice(&self.msg(p));
         a
     }
     /// the truthful pairing of pair (k, m), computed by the harness
@@ -133,7 +191,7 @@ impl Pool {
         g
     }
     fn mat(&self, pairs: &[Pair]) -> Vec<(PublicKey, Vec<u8>)> {
-        pairs.iter().map(|p| (self.pk(p.0), MSGS[p.1 as usize].to_vec())).collect()
+        pairs.iter().map(|p| (self.pk(p.0), self.msg(*p))).collect()
     }
 }
 
@@ -219,7 +277,9 @@ fn render_pairs(pairs: &[Pair]) -> String {
         if i > 0 {
             s.push(',');
         }
-        if is_inf_idx(*k) {
+        if is_off_idx(*k) {
+            s.push_str(&format!("(pk{}+torsion,m{m})", *k - OFF));
+        } else if is_inf_idx(*k) {
             s.push_str(&format!("(INF{},m{m})", ["-default", "-parsed", "-pk-minus-pk", "-pk(sk)+pk(r-sk)"][(*k - INF) as usize]));
         } else {
             s.push_str(&format!("(k{k},m{m})"));
@@ -254,7 +314,15 @@ fn gen_list(s: &mut Src<'_>, c: &ListCfg) -> Vec<Pair> {
     let n = s.below(c.maxlen + 1);
     (0..n)
         .map(|_| {
-            let k = if c.inf > 0 && s.chance(c.inf) { INF + s.below(NINF as usize) as u8 } else { s.below(c.nk) as u8 };
+            let k = if c.inf > 0 && s.chance(c.inf) {
+                if s.chance(96) {
+                    OFF + s.below(c.nk) as u8
+                } else {
+                    INF + s.below(NINF as usize) as u8
+                }
+            } else {
+                s.below(c.nk) as u8
+            };
             (k, s.below(c.nm) as u8)
         })
         .collect()
@@ -265,7 +333,7 @@ fn gen_list(s: &mut Src<'_>, c: &ListCfg) -> Vec<Pair> {
 fn harness_aggregate(pool: &mut Pool, pairs: &[Pair]) -> Signature {
     let mut agg = Signature::default();
     for p in pairs {
-        if !is_inf_idx(p.0) {
+        if !is_inf_idx(p.0) || is_off_idx(p.0) {
             agg += &pool.share(*p);
         }
     }
@@ -311,7 +379,7 @@ fn make_query(s: &mut Src<'_>, pool: &mut Pool, pairs: Vec<Pair>, c: &ListCfg, c
                 let i = real[s.below(real.len())];
                 let (k, m) = pairs[i];
                 g -= &pool.share((k, m));
-                g += &pool.share((k, (m + 1) % MSGS.len() as u8));
+                g += &pool.share((k, (m + 1) % NMSGS as u8));
             }
             g
         }
@@ -342,6 +410,15 @@ const SIG_F4: &str = "C15:cache-verify:accepts-infinity-key";
 fn judge_cache(ctx: &mut Ctx, q: &Query, got: bool, scope: &str, detail: &dyn Fn() -> String) -> CaseResult {
     if got == q.expect {
         return Ok(());
+    }
+    if got && q.pairs.iter().any(|p| is_off_idx(p.0)) && !q.pairs.iter().any(|p| is_inf_idx(p.0) && !is_off_idx(p.0)) {
+        return ctx.known_or_fail("C15:cache-verify:accepts-key-outside-the-subgroup", || {
+            format!(
+                "BlsCache::aggregate_verify returned true for a list containing a public key outside the prime-order subgroup (verify / aggregate_verify refuse it): {} ({})",
+                q.render(),
+                detail()
+            )
+        });
     }
     if got && q.has_inf {
         // known finding F4: continue past it when listed
@@ -374,7 +451,7 @@ fn nz(n: usize) -> NonZeroUsize {
 fn case_paths(bytes: &[u8], ctx: &mut Ctx) -> CaseResult {
     let mut s = Src::new(bytes);
     let pool_id = s.below(NPOOLS) as u8;
-    let c = ListCfg { nk: s.range(1, NKEYS), nm: s.range(1, MSGS.len()), maxlen: 5, inf: 12 };
+    let c = ListCfg { nk: s.range(1, NKEYS), nm: s.range(1, NMSGS), maxlen: 5, inf: 12 };
     with_pool(pool_id, |pool| {
         let pairs = gen_list(&mut s, &c);
         let q = make_query(&mut s, pool, pairs, &c, false);
@@ -427,8 +504,11 @@ fn case_paths(bytes: &[u8], ctx: &mut Ctx) -> CaseResult {
 
         ctx.label(format!("paths:sig:{:?}:{}", q.kind, if q.expect { "valid" } else { "invalid" }));
         ctx.label(format!("paths:len:{}", q.pairs.len()));
-        if q.pairs.iter().any(|p| p.0 >= INF + 2) {
+        if q.pairs.iter().any(|p| p.0 >= INF + 2 && !is_off_idx(p.0)) {
             ctx.label("paths:infinity-key:computed-by-group-arithmetic");
+        }
+        if q.pairs.iter().any(|p| is_off_idx(p.0)) {
+            ctx.label("paths:key-outside-the-subgroup");
         }
         if q.has_inf {
             ctx.label("paths:infinity-key");
@@ -506,7 +586,7 @@ fn case_history(bytes: &[u8], ctx: &mut Ctx) -> CaseResult {
     let mut s = Src::new(bytes);
     let pool_id = s.below(NPOOLS) as u8;
     let cap = s.range(1, 6);
-    let c = ListCfg { nk: s.range(1, NKEYS), nm: s.range(1, MSGS.len()), maxlen: 5, inf: 8 };
+    let c = ListCfg { nk: s.range(1, NKEYS), nm: s.range(1, NMSGS), maxlen: 5, inf: 8 };
     let nops = s.range(1, 14);
     with_pool(pool_id, |pool| {
         let cache = BlsCache::new(nz(cap));
@@ -1204,9 +1284,9 @@ fn main() {
     let _ = off_subgroup_g2();
     let prop = Property {
         id: "C15",
-        rule: "cases are (pair list, signature) queries over a pool of 8 secret keys owned by the harness (lists of 0..5 pairs with repeated keys/messages, the empty message, the infinity key in four in-memory representations (default, parsed, pk + (-pk), pk(sk) + pk(r - sk)); signature = correct aggregate | share missing/extra | wrong message | negated | plus generator | identity | on-curve point outside the subgroup), run (a) through all four verifiers, (b) as sequential histories Verify/Update(truthful)/Evict on a cache of capacity 1..6, (c) as 2-3 threads on one shared cache under a schedule of critical sections owned by the harness (every interleaving for 2 threads x one Verify of <=2 pairs; sampled otherwise). Non-trivial = (a) non-empty list; (b) a history in which a pair evicted by capacity is verified again; (c) a schedule in which two threads miss on the same key before either inserts. Distinct by decoded query / history / (scripts, realised thread order).",
+        rule: "cases are (pair list, signature) queries over a pool of 8 secret keys owned by the harness (lists of 0..5 pairs with repeated keys/messages, the empty message, messages that begin with the pair's own key encoding, the infinity key in four in-memory representations (default, parsed, pk + (-pk), pk(sk) + pk(r - sk)); signature = correct aggregate | share missing/extra | wrong message | negated | plus generator | identity | on-curve point outside the subgroup), run (a) through all four verifiers, (b) as sequential histories Verify/Update(truthful)/Evict on a cache of capacity 1..6, (c) as 2-3 threads on one shared cache under a schedule of critical sections owned by the harness (every interleaving for 2 threads x one Verify of <=2 pairs; sampled otherwise). Non-trivial = (a) non-empty list; (b) a history in which a pair evicted by capacity is verified again; (c) a schedule in which two threads miss on the same key before either inserts. Distinct by decoded query / history / (scripts, realised thread order).",
         assumptions: &[
-            "model::sig: valid <=> no key is infinity and signature bytes == aggregate of sign(sk_i, m_i) computed by the harness with the secret keys (sign/aggregate of chia-bls are the definition of 'signatures by those keys')",
+            "model::sig: valid <=> no key is infinity or outside the subgroup and signature bytes == aggregate of sign(sk_i, m_i) computed by the harness with the secret keys (sign/aggregate of chia-bls are the definition of 'signatures by those keys')",
             "interleavings are explored at the granularity of the cache's mutex acquisitions (feature chia-bls/verif-hooks); code between two acquisitions touches no shared state",
             "off-subgroup-ness of the G2 test point is decided by (r-1)*P + P != 0 (scalar_multiply reduces its scalar mod r, so r*P cannot be asked directly)",
             "hit/miss observations through the hook sites feed labels only and are never asserted",
@@ -1223,6 +1303,7 @@ fn main() {
                 required_labels: &[
                     "paths:infinity-key",
                     "paths:infinity-key:computed-by-group-arithmetic",
+                    "paths:key-outside-the-subgroup",
                     "paths:empty-message",
                     "paths:repeated-pair",
                     "paths:singleton",
